@@ -143,7 +143,7 @@ class BinStub:
     numElements = 2
 
     def __init__(self, ctx, unstable_upto, planar_fault):
-        self.ctx, self.k, self.planar_fault, self.n = ctx, unstable_upto, planar_fault, 0
+        self.ctx, self.k, self.planar_fault, self.n, self.nd = ctx, unstable_upto, planar_fault, 0, 0
 
     def getInterfacialComposition(self, T, gExtra=0, precPhase=None):
         self.n += 1
@@ -163,7 +163,8 @@ class BinStub:
         return xa, xb
 
     def getInterdiffusivity(self, x, T, removeCache=False):
-        return self.ctx.real("D_%d" % self.n, (0.1, 2.0))
+        self.nd += 1
+        return self.ctx.real("D_%d" % self.nd, (0.1, 2.0))
 
 
 def faults_binary(ctx, nph=1, ncls=3, k=1, planar="ok", refresh=True):
